@@ -269,6 +269,12 @@ def cull {α : Type} (ap : AP) (ts : Nat) (data : List (Nat × α)) : Except VEr
     | .ok nap => .ok ⟨nap, kept⟩
   else .error .assert
 
+/-- `cull_to_timestep` of a `HourlyContinuousCollection`: its datetimes are the steps of its period,
+    paired in order with its values; the same per-datetime test applies (the target need not divide
+    the current timestep: 6 -> 4 keeps :00 and :30 only). -/
+def cullContinuous {α : Type} (ap : AP) (ts : Nat) (vals : List α) : Except VErr (Validated (Nat × α)) :=
+  cull ap ts (ap.moys.zip vals)
+
 /-! ### Linear interpolation -/
 
 /-- `_xxrange(start, end, n)`: `start + i * ((end - start) / n)` for `i < n`. -/
@@ -364,6 +370,8 @@ def timeRate (factor ts v : Rat) : Rat := v / (factor / ts)
 #guard fitTimestep 4 [30, 60] = 4
 #guard rotateAfterLast (fun x : Nat => decide (x < 3)) [1, 2, 5, 7] = [5, 7, 1, 2]
 #guard (validateHourly (AP.annual false 1) false [(246240, 7)]).toOption.map (·.data) = some [(246240, 7)]
+#guard (cullContinuous ⟨7, 14, 0, 7, 14, 23, 6, false⟩ 4 [0, 1, 2, 3, 4, 5, 6]).toOption.map (·.data)
+  = some [(194 * 1440, 0), (194 * 1440 + 30, 3), (194 * 1440 + 60, 6)]
 #guard xxrange 0 10 4 = [0, 5/2, 5, 15/2]
 #guard interpolateHoles ⟨1, 1, 0, 1, 1, 23, 1, false⟩ true [(0, 0), (60, 10), (240, 40), (300, 50)]
   = .ok ([0, 10, 20, 30, 40, 50] ++ List.replicate 18 50)
